@@ -42,6 +42,10 @@ package main
 //@   atcall github.com/fatih/structtag.*Tags.Set [C20] @github.com/fatih/structtag.*Tags.Get(arg0, "plenc").r1 != nil
 //@   # unexported fields are left alone when private fields are excluded
 //@   atcall github.com/fatih/structtag.*Tags.Set [C20] athead(c.excludePrivate ==> !@unicode.IsLower(@unicode/utf8.DecodeRuneInString(@cmd/plenctag.fieldName(f)).r0))
+//@   # what is written back is the tag set parsed from the field's own tag, with only a plenc entry added to it:
+//@   # every other key stays as the field had it (as far as structtag's String() reproduces what Parse read)
+//@   atcall github.com/fatih/structtag.*Tags.Set [C20] called_extractTags && arg0 == call_extractTags_r0 && call_extractTags_r1 == nil
+//@   atcall github.com/fatih/structtag.*Tags.String [C20] called_extractTags && arg0 == call_extractTags_r0 && called_Tags_Set && call_Tags_Set_arg0 == arg0
 
 //@ func cmd/plenctag.fieldName
 //@   safety C20
